@@ -32,7 +32,8 @@ PROBES_D = ["[C][nop][#C][nop]", "[C][#C]", "[N][=N][#N]", "[Si][=C][Branch1][C]
             "[C]" * 20 + "[Ring2][Ring1][C]", "[N][Branch2][Ring1][Ring1]" + "[C]" * 19 + "[O]",
             "[C]" * 20 + "[Ring3][C][Ring1][Ring1][Branch3][C][C][P][N][O]"]
 PROBES_E = ["C#N", "c1ccccc1", "[Si](C)(C)(C)C", "O=S(=O)(O)O", "[NH4+]", "C(F)(F)(F)(F)F", "C=[C+]C", "[Fe+10]C",
-            "O=s1cccc1", "Cp1(=O)cccc1", "c1ccc2[nH]ccc2c1"]
+            "O=s1cccc1", "Cp1(=O)cccc1", "c1ccc2[nH]ccc2c1",
+            "C=1CCCCC=1", "O=S1CCCC=1"]        # bond symbols on ring-closure digits (built by the parser's ring-bond path)
 CAP_KEYS = [("C", 0), ("N", 0), ("N", 1), ("Si", 0), ("O", 0), ("F", 0), ("Xe", 0), ("C", 1), ("S", 0), ("Cl", 0),
             ("Fe", 10), ("H", 0), ("P", 0), ("Fe", 0)]
 LRU_KEYS = {"get_bonding_capacity": CAP_KEYS, "get_semantic_robust_alphabet": [()]}
